@@ -67,6 +67,9 @@ package libmem
 //@   ensures[C06] old(rwf(a)) && req.id in a.requests && a.requests[req.id] == req ==> rwf(a)
 //@   ensures[C06,C07] old(jupd(a)) ==> jupd(a)
 //@   ensures[C06,C07] old(jchg(a)) ==> jchg(a)
+//@   ensures[C07] old(jmono(a)) && !old(origd(a, req.id)) ==> jmono(a)
+//@   ensures[C07] old(jstrict(a)) && !old(origd(a, req.id)) ==> jstrict(a)
+//@   ensures[C07] forall id string :: jnew(a, id) ==> old(jnew(a, id)) || id == req.id
 
 //@ func (*Allocator).zoneRemove ints=bv64
 //@   requires awf(a)
@@ -107,6 +110,9 @@ package libmem
 //@   ensures[C06,C07] old(jupd(a)) ==> jupd(a)
 //@   ensures[C06,C07] old(jchg(a)) ==> jchg(a)
 //@   ensures[C06,C07] old(jassigned(a)) ==> jassigned(a)
+//@   ensures[C07] old(jmono(a)) && had && (zone & from) == from ==> jmono(a)
+//@   ensures[C07] old(jstrict(a)) && old(jmono(a)) && had && (zone & from) == from ==> jstrict(a)
+//@   ensures[C07] had ==> forall id string :: jnew(a, id) ==> old(jnew(a, id))
 
 // ---- journal life cycle ---------------------------------------------------------------------------------
 // The assignment view a transaction started from is recoverable from the journal:
@@ -162,7 +168,13 @@ package libmem
 //@ pure jupd(a *Allocator) bool = a.journal != nil ==> forall id string :: id in a.journal.updates ==> id in a.users && a.journal.updates[id] == a.users[id]
 // a request whose assignment differs from the transaction's starting view has a journal entry
 //@ pure jchg(a *Allocator) bool = a.journal != nil ==> forall id string :: id in a.users && !(id in a.journal.updates) ==> origd(a, id) && origv(a, id) == a.users[id]
-//@ pure txn(a *Allocator) bool = awf(a) && rwf(a) && a.journal != nil && jassigned(a) && jupd(a) && jchg(a)
+// assignments only grow relative to the transaction's starting view, and every journaled request that was
+// assigned at the start now has a different (strictly larger) zone
+// requests first assigned by the running transaction (journal entry "was unassigned")
+//@ pure jnew(a *Allocator, id string) bool = a.journal != nil && id in a.journal.reverts && a.journal.reverts[id] == 0
+//@ pure jmono(a *Allocator) bool = a.journal != nil ==> forall id string :: origd(a, id) && id in a.users ==> (a.users[id] & origv(a, id)) == origv(a, id)
+//@ pure jstrict(a *Allocator) bool = a.journal != nil ==> forall id string :: id in a.journal.updates && origd(a, id) ==> a.users[id] != origv(a, id)
+//@ pure txn(a *Allocator) bool = awf(a) && rwf(a) && a.journal != nil && jassigned(a) && jupd(a) && jchg(a) && jmono(a) && jstrict(a)
 //@ pure nocustom(a *Allocator) bool = a.custom.ExpandZone == nil && a.custom.HandleOvercommit == nil
 
 // SortRequests (map iteration, filtering closure, slices.SortFunc) is assumed: it returns requests stored in the map.
@@ -188,11 +200,13 @@ package libmem
 //@   ensures[C06] txn(a) && a.journal == old(a.journal) && a.requests == old(a.requests) && dom(a.requests) == old(dom(a.requests)) && vals(a.requests) == old(vals(a.requests))
 //@   ensures[C06] forall id string :: origd(a, id) == old(origd(a, id)) && origv(a, id) == old(origv(a, id))
 //@   ensures[C07] forall id string :: old(id in a.users) ==> id in a.users && (a.users[id] & old(a.users[id])) == old(a.users[id])
+//@   ensures[C07] forall id string :: jnew(a, id) ==> old(jnew(a, id))
 //@ loop 0 in (*Allocator).zoneShrinkUsage at "range SortRequests"
 //@   invariant txn(a) && a.journal == old(a.journal) && a.requests == old(a.requests) && dom(a.requests) == old(dom(a.requests)) && vals(a.requests) == old(vals(a.requests))
 //@   invariant forall id string :: origd(a, id) == old(origd(a, id)) && origv(a, id) == old(origv(a, id))
 //@   invariant forall id string :: old(id in a.users) ==> id in a.users && (a.users[id] & old(a.users[id])) == old(a.users[id])
 //@   invariant nocustom(a) && nodes != 0
+//@   invariant forall id string :: jnew(a, id) ==> old(jnew(a, id))
 //@   invariant forall j int :: 0 <= j && j < len($t36) ==> $t36[j] != nil && $t36[j].id in a.requests && a.requests[$t36[j].id] == $t36[j]
 //@   invariant forall i int, j int :: 0 <= i && i < j && j < len($t36) ==> $t36[i] != $t36[j]
 //@   invariant forall j int :: rangeindex < j && j < len($t36) ==> $t36[j].id in a.users && a.users[$t36[j].id] == zone
@@ -204,7 +218,8 @@ package libmem
 //@ pure txpres(a *Allocator) bool = txn(a) && nocustom(a) && a.journal == old(a.journal) && a.requests == old(a.requests) &&
 //@    dom(a.requests) == old(dom(a.requests)) && vals(a.requests) == old(vals(a.requests)) &&
 //@    (forall id string :: origd(a, id) == old(origd(a, id)) && origv(a, id) == old(origv(a, id))) &&
-//@    (forall id string :: old(id in a.users) ==> id in a.users && (a.users[id] & old(a.users[id])) == old(a.users[id]))
+//@    (forall id string :: old(id in a.users) ==> id in a.users && (a.users[id] & old(a.users[id])) == old(a.users[id])) &&
+//@    (forall id string :: jnew(a, id) ==> old(jnew(a, id)))
 
 //@ func (*Allocator).defaultHandleOvercommit ints=bv64
 //@   requires txn(a) && nocustom(a)
@@ -259,6 +274,7 @@ package libmem
 //@                                 dom(a.requests) == upd(old(dom(a.requests)), req.id, true) && vals(a.requests) == upd(old(vals(a.requests)), req.id, req)
 //@   ensures[C06] retErr == nil ==> forall id string :: origd(a, id) == old(id in a.users) && origv(a, id) == old(a.users[id])
 //@   ensures[C06,C07] retErr == nil ==> jupd(a) && jchg(a) && req.id in a.journal.updates
+//@   ensures[C07] retErr == nil ==> jstrict(a) && (forall id string :: jnew(a, id) ==> id == req.id)
 //@   ensures[C07] retErr == nil ==> forall id string :: old(id in a.users) ==> id in a.users && (a.users[id] & old(a.users[id])) == old(a.users[id])
 //@   ensures[C07] retErr == nil ==> (req.zone & a.masks.nodes.normal) != 0
 
